@@ -1060,6 +1060,11 @@ psBool_t tls13ServerFoundSupportedPsk(ssl_t *ssl,
         {
             psTraceInfo("Error: PSK is associated with an unsupported " \
                     "ciphersuite\n");
+            /* Not selected after all: the ServerHello must not carry a
+               pre_shared_key extension and the key schedule must not
+               expect this PSK (RFC 8446, 4.2.11). */
+            ssl->sec.tls13UsingPsk = PS_FALSE;
+            ssl->sec.tls13ChosenPsk = NULL;
             return PS_FALSE;
         }
         else if (cipher->ident != SSL_NULL_WITH_NULL_NULL)
